@@ -16,7 +16,15 @@
 (* may carry the journal mode the harness read from the header of the file   *)
 (* at the database path right after the operation (field jm: "wal", "del",   *)
 (* "" = not observed); it is compared with the mode the model gives the      *)
-(* file after Script and differences are collected in `obs`.                 *)
+(* file after Script and differences are collected in `obs` (k = "jm").       *)
+(* Transaction state (conformance item, never part of `bad`): every event    *)
+(* may carry field tx: "y" / "n" = Connection.in_transaction of the process' *)
+(* connection right after the operation - for a close event: at the idle     *)
+(* point before close_db_conn was called, i.e. when the page work was over   *)
+(* and no library call active - or "" = not observed.  It is compared with   *)
+(* the model's txn (InTxn) at the same point; differences go to `obs`        *)
+(* (k = "tx" / "idle").  A mismatch note in `bad` carries the observed tx    *)
+(* and the model's transaction state of the process (mtx) at that point.     *)
 EXTENDS Naturals, Sequences, FiniteSets, TLC, Json, IOUtils
 
 TraceFile == JsonDeserialize(IOEnv.TRACE_FILE)
@@ -27,10 +35,10 @@ ScnOf(t) == [bak |-> Traces[t].scn.bak, boot |-> Traces[t].scn.boot, cursor |-> 
              prov |-> Traces[t].scn.prov, rdr |-> Traces[t].scn.rdr]
 T_Scn == {ScnOf(t) : t \in 1..Len(Traces)}
 
-VARIABLES scn, pmain, pbak, ino, wlock, pc, conn, snap, saw, res, chk, raced, snapfail, opn, life, tid, used, bad, obs
+VARIABLES scn, pmain, pbak, ino, wlock, pc, conn, snap, saw, res, chk, raced, snapfail, opn, life, txn, tid, used, bad, obs
 W == INSTANCE Workers WITH Procs <- T_Procs, Dev <- T_Dev, Scenarios <- T_Scn
-wvars == <<scn, pmain, pbak, ino, wlock, pc, conn, snap, saw, res, chk, raced, snapfail, opn, life>>
-tvars == <<scn, pmain, pbak, ino, wlock, pc, conn, snap, saw, res, chk, raced, snapfail, opn, life, tid, used, bad, obs>>
+wvars == <<scn, pmain, pbak, ino, wlock, pc, conn, snap, saw, res, chk, raced, snapfail, opn, life, txn>>
+tvars == <<scn, pmain, pbak, ino, wlock, pc, conn, snap, saw, res, chk, raced, snapfail, opn, life, txn, tid, used, bad, obs>>
 
 Events == Traces[tid].events
 
@@ -58,7 +66,7 @@ ModelResult(p) ==
     [] lab = "script" -> IF pmain # conn[p] THEN "ioerr" ELSE "ok"
     [] lab \in {"read1", "read2"} -> ReadResult(p)
     [] lab = "bootcheck" -> IF W!BootFound(p) THEN "yes" ELSE "no"
-    [] lab = "insert" -> IF W!InsertFails(p) THEN "locked" ELSE "ok"
+    [] lab = "insert" -> IF W!InsertFails(p) \/ W!IdleHeld(p) THEN "locked" ELSE "ok"
     [] lab = "commit" -> IF W!RollbackBlocked(p) THEN "locked" ELSE "ok"
     [] OTHER -> "ok"
 
@@ -74,14 +82,19 @@ FirstReady == CHOOSE i \in Idx : Ready(i) /\ \A j \in Idx : Ready(j) => Events[i
 Note(i, why, exp) ==
   LET e == Events[i] IN
   bad' = Append(bad, [i |-> i, p |-> e.p, cls |-> e.cls, r |-> e.r, why |-> why, expected |-> exp,
-                      raced |-> raced, snapfail |-> snapfail, life |-> life])
+                      raced |-> raced, snapfail |-> snapfail, life |-> life, tx |-> e.tx, mtx |-> txn[e.p]])
 
-\* to be used after W!Step(Events[i].p): the mode of the file the process is connected to
+\* to be used after W!Step(Events[i].p): the mode of the file the process is connected to, and the
+\* transaction state of its connection (a close: the state at the idle point BEFORE the step)
+YN(b) == IF b THEN "y" ELSE "n"
 JmObs(i) ==
-  LET e == Events[i] IN
-  IF e.cls = "script" /\ e.jm # "" /\ conn'[e.p] # 0 /\ e.jm # ino'[conn'[e.p]].jm
-  THEN obs' = Append(obs, [i |-> i, p |-> e.p, seen |-> e.jm, model |-> ino'[conn'[e.p]].jm])
-  ELSE obs' = obs
+  LET e == Events[i]
+      jmo == IF e.cls = "script" /\ e.jm # "" /\ conn'[e.p] # 0 /\ e.jm # ino'[conn'[e.p]].jm
+             THEN <<[i |-> i, p |-> e.p, k |-> "jm", seen |-> e.jm, model |-> ino'[conn'[e.p]].jm]>> ELSE <<>>
+      mtx == IF e.cls = "close" THEN YN(txn[e.p] # "none") ELSE YN(txn'[e.p] # "none")
+      txo == IF e.tx # "" /\ e.tx # mtx
+             THEN <<[i |-> i, p |-> e.p, k |-> IF e.cls = "close" THEN "idle" ELSE "tx", seen |-> e.tx, model |-> mtx]>> ELSE <<>>
+  IN obs' = obs \o jmo \o txo
 
 ConsumeClean(i) == Ready(i) /\ Clean(i) /\ W!Step(Events[i].p) /\ JmObs(i) /\ bad' = bad /\ used' = used \cup {i}
 
